@@ -146,14 +146,15 @@ func isValidParamName(name string) error {
 	}
 
 	// check if the first character is a letter or underscore
-	r := []rune(name)[0]
+	runes := []rune(name)
+	r := runes[0]
 	if !unicode.IsLetter(r) && r != '_' {
 		return fmt.Errorf(
 			"the parameter name must start with a letter or underscore. The first character is %c", r)
 	}
 
 	// check if the remaining characters are letters, digits, or underscores
-	for _, r := range name[1:] {
+	for _, r := range runes[1:] {
 		if !unicode.IsLetter(r) && !unicode.IsDigit(r) && r != '_' {
 			return fmt.Errorf(
 				"the variable name can only contain letters, digits, and underscores, invalid character %c found", r)
